@@ -29,7 +29,7 @@ type ChildOutcome struct {
 	Exit      int
 	TimedOut  bool
 	Signaled  bool
-	Stderr    string // tail
+	Stderr    string // whole, or head and tail of a long one
 	OpenIdx   int    // case begun but not ended (-1 none)
 	OpenCase  json.RawMessage
 	WalLines  int
@@ -125,8 +125,9 @@ func (c *Ctx) RunChild(spec ChildSpec) ChildOutcome {
 		}
 	}
 	b, _ := os.ReadFile(errPath)
-	if len(b) > 64<<10 {
-		b = append([]byte("…"), b[len(b)-(64<<10):]...)
+	if len(b) > 128<<10 {
+		// head (where a dying process names its cause) and tail
+		b = append(append(append([]byte{}, b[:64<<10]...), []byte("\n…\n")...), b[len(b)-(64<<10):]...)
 	}
 	out.Stderr = string(b)
 	out.OpenIdx, out.OpenCase, out.WalLines = c.ApplyWAL(wal)
